@@ -236,7 +236,7 @@ pub fn run(args: &Args, rep: &mut Report) {
         return;
     }
     // exhaustive: all contigs of length <= L over {A,C,N} with k in {2,3}, splitter sets: dense and each single k-mer
-    let lmax = if miri { 4 } else if t { 9 } else { 7 };
+    let lmax = if miri { 3 } else if t { 9 } else { 7 };
     let mut idx = 0u64;
     let mut exh = 0u64;
     for len in 0..=lmax {
